@@ -120,5 +120,5 @@ def nontrivial(c, mo, io):
 def relevant_difference(c, mo, io):
     return res_of(mo).get('out') != res_of(io).get('out') or res_of(mo)['kind'] != res_of(io)['kind']
 
-def known_F5_subnormal(c, mo, io):
+def _fixed_F5_subnormal(c, mo, io):
     return c['kind'] == 'subnormal'
